@@ -121,3 +121,12 @@ Theorem C06_noise_ingredients_observed_only : forall y y' model model',
     ragree wagree (y_x_model y model) (y_x_model y' model').
 Proof. exact noise_ingredients_observed_only. Qed.
 Print Assumptions C06_noise_ingredients_observed_only.
+
+(** ... and padded visits only: k more visits of weight 0 along the visit axis, with ANY y values and ANY model
+    values in them, change the variance of neither rule. *)
+Theorem C06_noise_padding : forall y w model k gy gm,
+    wf y -> weight y = Some w -> length (shape (value y)) = 3 -> shape model = shape (value y) ->
+    ragree teq (noise_var_scalar (wpad VISIT_POS k gy y) (tpad VISIT_POS k gm model)) (noise_var_scalar y model) /\
+    ragree teq (noise_var_diagonal (wpad VISIT_POS k gy y) (tpad VISIT_POS k gm model)) (noise_var_diagonal y model).
+Proof. exact noise_padding. Qed.
+Print Assumptions C06_noise_padding.
